@@ -413,11 +413,19 @@ var (
 	nGateSeq     atomic.Int64
 	nCkSeq       atomic.Int64
 	stallCk      atomic.Bool
+	builtSig     atomic.Pointer[chan struct{}]
+	strWaiting   atomic.Bool
+	strDone      = make(chan struct{}, 1)
 	nWidened     atomic.Int64
 )
 
 // gate: park the merger at the start of a merge while an index build is in flight,
 // until the build has taken its snapshot (the window of DESIGN F1), bounded by a timeout
+func newSig() *chan struct{} {
+	ch := make(chan struct{})
+	return &ch
+}
+
 func gate(point string, kv []any) {
 	switch point {
 	case "merge.begin":
@@ -460,6 +468,16 @@ func gate(point string, kv []any) {
 				close(*ch)
 			}
 		}
+		if sig := builtSig.Swap(nil); sig != nil {
+			close(*sig)
+		}
+		if strWaiting.Load() {
+			// let the straddling transaction try to commit inside the window
+			select {
+			case <-strDone:
+			case <-time.After(50 * time.Millisecond):
+			}
+		}
 		// the new indexes are built, the table is still locked exclusively: keep it that
 		// way for a while so that update transactions begin, end and (try to) write the
 		// table inside the window
@@ -494,6 +512,31 @@ func adminLoop(r *rand.Rand, stop, done chan struct{}) {
 		ch := make(chan struct{})
 		alterBuilt.Store(&ch)
 		alterPending.Store(building && r.Intn(4) != 0)
+		// a transaction that has only deleted from the table is open when the index build
+		// takes the table, and tries to commit while the table is still locked
+		var st *client
+		stDone := make(chan struct{})
+		if building && r.Intn(4) != 0 {
+			if st = beginTran(rand.New(rand.NewSource(r.Int63())), true); st != nil {
+				st.delete(prof.tables[0])
+				sig := newSig()
+				builtSig.Store(sig)
+				strWaiting.Store(true)
+				go func() {
+					select {
+					case <-*sig:
+					case <-time.After(100 * time.Millisecond):
+					}
+					st.finish()
+					strWaiting.Store(false)
+					select {
+					case strDone <- struct{}{}:
+					default:
+					}
+					close(stDone)
+				}()
+			}
+		}
 		res := "ok"
 		func() {
 			defer func() {
@@ -504,6 +547,9 @@ func adminLoop(r *rand.Rand, stop, done chan struct{}) {
 			query.DoAdmin(db, cmd, nil)
 		}()
 		alterPending.Store(false)
+		if st != nil {
+			<-stDone
+		}
 		if res == "ok" {
 			if zstep {
 				zstate = (zstate + 1) % 3
